@@ -62,6 +62,7 @@ def runLine (line : String) : String :=
   | 'T' => runTerminal rest
   | 'M' => runMulti rest
   | 'D' => runLookup rest
+  | 'd' => runLookup rest     -- the same lookup made in constant evaluation (the executor's compile-time tables)
   | 'N' => runEncodeCs rest
   | 'H' => runHigh rest
   | 'X' => runComponents rest
